@@ -657,11 +657,16 @@ func lexStatic(args []string) error {
 			}
 			nsym++
 			got := d.Symbols()
-			ok := len(got) == len(want)
-			for k, v := range want {
-				if g, has := got[k]; !has || int(g) != v {
+			// the property speaks of "that rule's symbol", not of particular numbers: the table must have exactly the
+			// specification's names, EOF = lexer.EOF, and distinct numbers for distinct names
+			ok := len(got) == len(want) && got["EOF"] == lexer.EOF
+			seenNum := map[lexer.TokenType]bool{}
+			for k := range want {
+				g, has := got[k]
+				if !has || seenNum[g] {
 					ok = false
 				}
+				seenNum[g] = true
 			}
 			if !ok {
 				badsym++
